@@ -7,7 +7,7 @@
    farm, unfarm, deposit-and-farm, unfarm-and-withdraw, BeginBlock, and EndBlock with ANY matching result
    and share arithmetic (ENV), by any accounts with any amounts.  [reach setup ops] is the state after
    the history; failed messages and a failed per-app end-block leave the state unchanged. *)
-From Comdex Require Import Lib.Base Lib.DecArith Model.Liquidity Model.LiquidityWitness
+From Comdex Require Import Lib.Base Lib.DecArith Model.Liquidity Model.LiquidityWitness Model.LiquidityWitness3
   Proofs.LiquiditySweep Proofs.LiquidityProofs2 Proofs.LiquidityEscrow Proofs.LiquidityReach Proofs.LiquidityOrderThms
   Proofs.LiquidityCustody Proofs.LiquidityFarm Proofs.LiquidityPools Proofs.LiquiditySupply Proofs.LiquidityCustodyThms.
 
@@ -99,6 +99,25 @@ Example c04_disabled_example :
   hist_ok (w_setup 1) w_drain_ops /\ sup (reach (w_setup 1) w_drain_ops) 1 1 = 0 /\
   map pl_disabled (pools (reach (w_setup 1) w_drain_ops)) = [true].
 Proof. split; [split; repeat constructor|]. split; vm_compute; reflexivity. Qed.
+
+(* ... also when the supply reaches zero INSIDE a transaction: the sole provider farms the whole supply and leaves with
+   one MsgUnfarmAndWithdraw (no EndBlocker in the history) - supply 0, pool disabled, the request succeeded, nothing
+   left in the module account; in the same block a deposit to the pool is refused (disabled pool, error class 20)
+   and a new basic pool of the pair is accepted *)
+Example c04_disabled_in_transaction_example :
+  hist_ok (w_setup 1) w_sole_ops /\ sup w_sole_state 1 1 = 0 /\ map pl_disabled (pools w_sole_state) = [true] /\
+  map w_status (wds w_sole_state) = [2] /\ led w_sole_state Module 1101 = 0 /\
+  err_of (step w_sole_state (ODeposit 1 50 1 [(1, 1000); (2, 1000)])) = 20 /\
+  map pl_disabled (pools (apply_op w_sole_state (OCreatePool 1 90 1 2000000 2000000 true 1000000))) = [true; false].
+Proof. split; [split; repeat constructor|]. repeat split; vm_compute; reflexivity. Qed.
+
+(* the pair check of order placement, one position at a time (the senders hold the offered coins; everything else
+   about the messages is valid): the third asset offered for the right demand coin, the right offer coin for the third
+   asset, the pair's coins swapped - each is refused with the wrong-pair class 6 and the right coins are accepted *)
+Example c04_wrong_coin_orders_example :
+  map (fun m => err_of (step w_two_state (OLimit m 12))) [w_foreign_offer; w_foreign_demand; w_swapped_coins; w_buy 1 1]
+  = [6; 6; 6; 0].
+Proof. vm_compute; reflexivity. Qed.
 
 (* the pool-coin supply of pool (a, i) changes only by the creation of that pool, by a deposit-and-farm
    or unfarm-and-withdraw on that pool, or in an end block at whose start a deposit or withdrawal
